@@ -28,13 +28,16 @@ RULE = ('corpus tree x operation x (every environment call index k of the fault-
 ASSUMPTIONS = [
     'fault seam = monkeypatched os.open/os.stat/os.fstat/os.scandir/builtins.open (+ raw read proxy) that only '
     'intercepts paths below the tree root; the kernel is not involved',
-    'ENOENT is excluded (the statement excludes it); faults during save are out of scope (DESIGN §C06)',
+    'ENOENT and ENOTDIR are excluded: both are the OS saying that no such object exists (the statement is about objects that '
+    'exist but cannot be opened, inspected or read); faults during save are out of scope (DESIGN §C06)',
     'faults on objects inside hidden or IGNOREd subtrees are DONT_CARE (need not be read)',
 ]
 
 TOP = scen.TOP
-ERRNOS = [errno.EACCES, errno.EPERM, errno.EIO, errno.ENOMEM, errno.ELOOP, errno.ENOTDIR, errno.EMFILE,
-          errno.ESTALE]
+# ENOENT and ENOTDIR are not in the alphabet: they are the two answers by which the operating system says that NO SUCH
+# OBJECT EXISTS (a path component is missing / is not a directory), i.e. answers about existence and not failures to
+# access an existing object; an entry beneath a path that is a regular file now is 'missing' (C01/C07/C18 judge that)
+ERRNOS = [errno.EACCES, errno.EPERM, errno.EIO, errno.ENOMEM, errno.ELOOP, errno.EMFILE, errno.ESTALE, errno.EBUSY]
 
 
 def corpus():
